@@ -110,7 +110,10 @@ pub fn gen_image(g: &Gen, dyn_order: &[String]) -> Value {
     if g.dynamic {
         let mut m = serde_json::Map::new();
         for (i, k) in dyn_order.iter().enumerate() {
-            m.insert(k.clone(), json!(prf_u64(g.seed, 1000 + i as u64) % 4096));
+            // mostly small like honest files; one in eight anywhere in the 64-bit range of the field's type
+            let r = prf_u64(g.seed, 1000 + i as u64);
+            let v = if r % 8 == 0 { prf_u64(g.seed, 5000 + i as u64) >> (r >> 3) % 64 } else { (r >> 3) % 4096 };
+            m.insert(k.clone(), json!(v));
         }
         img["dynamic_params"] = Value::Object(m);
     }
@@ -148,7 +151,7 @@ pub fn check(env: &Env, c: &Case) -> Outcome {
             let slots: Vec<&Slot> = slots.iter().filter(|s| !s.ptr.ends_with("/prod")).collect();
             let s = slots[pick(c.a, slots.len())];
             let cur = img.pointer(&s.ptr).unwrap();
-            match replacement(s.kind, cur, c.which % 4, c.gen.seed ^ c.b as u64) {
+            match replacement(s.kind, cur, [0u8, 1, 2, 3, 5, 6, 7, 8][c.which as usize % 8], c.gen.seed ^ c.b as u64) {
                 Some(val) => {
                     apply(&mut m, &Edit::Set { ptr: s.ptr.clone(), val });
                 }
@@ -257,7 +260,7 @@ pub fn run(ctx: &Ctx) -> Report {
         let n = slots.iter().filter(|s| !s.ptr.ends_with("/prod")).count();
         let stride = if ctx.quick() { 7 } else { 1 };
         for k in (0..n).step_by(stride) {
-            jobs.push(Case { honest: Some(hi as u8), gen: Gen { cells: 0, headers: 0, dynamic: false, segments: 6, seed: mix(ctx.seed, k as u64) }, op: 0, a: (((k << 16) + (1 << 15)) / n.max(1)) as u16, b: k as u16, which: (k % 3) as u8 });
+            jobs.push(Case { honest: Some(hi as u8), gen: Gen { cells: 0, headers: 0, dynamic: false, segments: 6, seed: mix(ctx.seed, k as u64) }, op: 0, a: (((k << 16) + (1 << 15)) / n.max(1)) as u16, b: k as u16, which: (k % 8) as u8 });
         }
     }
     par_for(
@@ -306,4 +309,4 @@ pub fn replay(ctx: &Ctx, v: &Value) -> Result<Outcome, String> {
     Ok(check(&e, &c))
 }
 
-pub const RULE: &str = "base = one of the 26 honest public inputs or a generated one (0..60 main-page cells, 0..3 page headers, with/without the 340 dynamic parameters, 6..13 segments); one edit: any scalar of the serde image (step count, range-check bounds, layout code, every dynamic parameter, every segment bound, padding cell, every main-page address/value, header address/size/hash; header prod excluded) set to PRF/+1/-1/0, or a main-page cell deleted, inserted, two cells transposed, or (stone6) the friendly-layer argument changed, or a plain clone. Oracle: structurally different => different digest, equal => equal, and get_hash == independent re-implementation of the preimage; plus for every shipped proof of the build's Stone version the seed must reproduce the prover's first logged challenge. Non-trivial = the edit changed the input; classes by edited field group; distinct by case hash per Stone version";
+pub const RULE: &str = "base = one of the 26 honest public inputs or a generated one (0..60 main-page cells, 0..3 page headers, with/without the 340 dynamic parameters (values below 4096, one in eight anywhere below 2^64), 6..13 segments); one edit: any scalar of the serde image (step count, range-check bounds, layout code, every dynamic parameter, every segment bound, padding cell, every main-page address/value, header address/size/hash; header prod excluded) set to PRF/+1/-1/0/one bit flipped/+2^32/+2^64/+2^128, or a main-page cell deleted, inserted, two cells transposed, or (stone6) the friendly-layer argument changed, or a plain clone. Oracle: structurally different => different digest, equal => equal, and get_hash == independent re-implementation of the preimage; plus for every shipped proof of the build's Stone version the seed must reproduce the prover's first logged challenge. Non-trivial = the edit changed the input; classes by edited field group; distinct by case hash per Stone version";
